@@ -71,4 +71,34 @@ CHECKS = {
   "note": "Trusted: TLC; the cfg-gated hooks (state samples at loop top / after each command / after each instruction, with memory diffs computed over all 65,536 words; stdout/stderr tee; typed unwind instead of process exit); the harness's post-processing of hook events into load/loop/cmd/exec/stop events. Programs and scripts are sampled (catalogue + seeded), bounded by a step budget; J3 (`step` over a recursive call) is a listed known finding.",
   "technique": 'TLA+ debugger spec: progress invariant + liveness under fairness in TLC, trace validation with step budget',
  },
+ "C06": {
+  "category": 'model_checking',
+  "text": "Trace_Cli.tla states the object-file format (ObjectBytes = big-endian [origin|0x3000] ++ Assembler!Image), the loader's acceptance (LoaderAccepts, also an invariant of MC_Machine's Init) and run-equivalence of source and object file; it validates observations of the real binary: compiled bytes of seeded programs, stdout+exit of `run x.asm` vs `run x.lc3` for executable programs with input, and refusals for files of every length parity around the top of memory.",
+  "note": 'Trusted: TLC, the real `lace` binary built from /repo into /verif/target/lace (no cfg), Python subprocess plumbing, strace for the system-call order (C08; the check degrades to before/after bytes if ptrace is unavailable and says so in the evidence). Programs sampled (seeded) + boundary matrices.',
+  "technique": 'TLA+ spec of object format/loader + TLC validation of real CLI observations',
+ },
+ "C07": {
+  "category": 'model_checking',
+  "text": "Trace_Cli!AgreeOk: the verdicts of `lace check`, `lace compile`, `lace run` under each flag value must all equal Assembler!Accepts (which MC_Assembler shows equal to the pipeline's verdict incl. the emission-time range check) and none may panic; validated for the C04 boundary matrix, out-of-range label references at every statement position for every PC-relative instruction, stack-mnemonic programs and the catalogue.",
+  "note": 'Trusted: TLC, the real `lace` binary built from /repo into /verif/target/lace (no cfg), Python subprocess plumbing, strace for the system-call order (C08; the check degrades to before/after bytes if ptrace is unavailable and says so in the evidence). Programs sampled (seeded) + boundary matrices.',
+  "technique": 'TLA+ acceptance predicate + TLC validation of check/compile/run verdict triples of the real binary',
+ },
+ "C08": {
+  "category": 'fault_enumeration',
+  "text": 'Trace_Cli!AtomicOk over an enumeration of fault points: emission failure at each statement position x destination {absent, existing, /dev/full, missing directory}; exit 0 => destination = ObjectBytes, exit != 0 => destination unchanged, no O_CREAT/O_TRUNC open of the destination before assembly succeeded (strace).',
+  "note": 'Trusted: TLC, the real `lace` binary built from /repo into /verif/target/lace (no cfg), Python subprocess plumbing, strace for the system-call order (C08; the check degrades to before/after bytes if ptrace is unavailable and says so in the evidence). Programs sampled (seeded) + boundary matrices.',
+  "technique": 'fault enumeration on the real binary under strace, decided by TLC against the TLA+ all-or-nothing predicate',
+ },
+ "C14": {
+  "category": 'model_checking',
+  "text": "CmdLang.tla is the command language: integer grammar, register / ^offset / label+-offset, argument positions with the naive pre-check, command names and aliases, line splitting, transports. TLC checks exclusivity of argument kinds, soundness of the pre-check, value ranges and transport equality for all tokens <= L and scripts <= S (MC_CmdLang); Trace_Debug.tla parses every recorded raw command line with CmdLang!ParseLine and requires the real session to show exactly that command's effect and output - for EVERY token <= 3 (4 in thorough) over the 16-character alphabet in three argument positions, all names/aliases/misspellings in three cases, seeded longer tokens; Trace_Cli validates --command/stdin/split delivery on the real binary.",
+  "note": 'Trusted: TLC, the hooks, the transcription of the grammar from help.txt/doc comments. Tokens exhaustive up to the bound, longer ones sampled. `sudo` easter egg is a listed known finding.',
+  "technique": 'TLA+ grammar spec exhaustively model-checked + trace validation of real command effects',
+ },
+ "C18": {
+  "category": 'model_checking',
+  "text": 'Gate in three places of the spec: Assembler!ItemOk (mnemonics need the flag), ISA!ExecStack (opcode 0xD without the flag = exit 1, no state change; MC_ISA Stops), Debugger (step out refusal). Trace_Cli!GateOk/FeatValid validate the real binary (refusal naming the feature in any letter case and in label position, identical image/stdout/exit for programs not using the extension under both flag values, -f value grammar); Trace_Debug validates in-process runs with the flag flipped and raw 0xD words.',
+  "note": 'Trusted: TLC, the real `lace` binary built from /repo into /verif/target/lace (no cfg), Python subprocess plumbing, strace for the system-call order (C08; the check degrades to before/after bytes if ptrace is unavailable and says so in the evidence). Programs sampled (seeded) + boundary matrices.',
+  "technique": 'TLA+ specs with the flag as a parameter, model-checked, + TLC validation of CLI and in-process observations under both flag values',
+ },
 }
